@@ -124,6 +124,8 @@ def run(ctx):
         tables[name] = ctx.guarded("R-C04-prop-table", prop_tables, ctx, ctx.progs[crate], name, pre, spec_by_id) or {}
     ctx.guarded("R-C04-prop-table", cross_crate, ctx, tables)
     ctx.guarded("R-C04-varint-siblings", varint_siblings, ctx)
+    for crate in ("rumqttc", "rumqttd"):
+        ctx.guarded("R-C04-len-strings", publish_len_pkid, ctx, "R-C04-len-strings", ctx.progs[crate])
     ctx.guarded("R-C04-flag-bits", flag_bits, ctx)
     for name, (crate, pre) in FLAG_COPY_PREFIX.items():
         ctx.guarded("R-C04-len-strings", len_strings, ctx, ctx.progs[crate], name, pre)
@@ -963,3 +965,42 @@ def kinds_agree(ctx, prog, name, entry):
             ctx.violation(rule, wb.id, "Packet::%s is write-only" % v,
                           "%s: the encoder has an arm for Packet::%s but the decoder never produces it (its packet type is not even mapped): such a packet does not round-trip through this codec" % (name, v), site=wb.fn_loc())
     ctx.ok(rule, wb.id, "%s: %d writable kinds examined against %d readable kinds" % (name, len(writable), len(readable)))
+
+
+def publish_len_pkid(ctx, rule, prog):
+    """A PUBLISH writer emits the 2-byte packet id exactly when qos != AtMostOnce; its len() must count those 2 bytes
+    under the same QoS test. Counting them whenever pkid != 0 goes wrong for values that never came off the wire:
+    the broker forwards a stored QoS 1/2 publish (publisher's pkid kept) to a QoS 0 subscription, the announced
+    remaining length is then 2 too large and the subscriber's stream is out of step from the next packet on.
+    Structural clause: in each publish len(), every read of the `pkid` field is dominated by a branch on the `qos` field."""
+    fns = prog.find(r"publish::(Publish::)?len$", "A")
+    ctx.floor(rule, "PUBLISH len() functions", len(fns), 2)
+    for f in fns:
+        qos_sw = []
+        for bi, b in enumerate(f.blocks):
+            t = b["t"]
+            if b.get("cleanup") or t["k"] != "switch":
+                continue
+            srcs = flatten_src(provenance(f, t["on"], through_calls=[r"."]))
+            if any("qos" in [x.split(".")[-1] for x in (getattr(s_, "fields", None) or [])] for s_ in srcs):
+                qos_sw.append(bi)
+        reads = []
+        for bi, b in enumerate(f.blocks):
+            if b.get("cleanup"):
+                continue
+            for st in b["s"]:
+                if "lhs" in st and st["rv"]["k"] in ("use", "ref"):
+                    pl = op_place(st["rv"].get("a")) if st["rv"]["k"] == "use" else st["rv"].get("pl")
+                    if pl is not None and place_fields(pl)[-1:] == ["pkid"]:
+                        reads.append((bi, st.get("sp")))
+        if not reads:
+            ctx.ok(rule, f.id, "len() does not look at the packet id (counts it by QoS alone)", site=f.fn_loc())
+            continue
+        for bi, sp in reads:
+            if any(q != bi and dominates(f, q, bi) for q in qos_sw):
+                ctx.ok(rule, f.id, "packet-id bytes are counted under a test of the QoS, as write() emits them", site=f.loc(sp))
+            else:
+                ctx.violation(rule, f.id, "packet-id bytes counted without the QoS test",
+                              "len() adds the 2 packet-id bytes on a path that did not test qos, while write() emits the id only for qos != AtMostOnce: for a QoS 0 publish that still carries an id "
+                              "(a stored QoS 1/2 publish forwarded to a QoS 0 subscription) the announced remaining length is 2 too large and the receiver's stream is out of step",
+                              site=f.loc(sp))
